@@ -116,7 +116,9 @@ def check(facts, rep, tier, cfg):
                         "under sink back-pressure the frame is dropped and the byte stream has a hole although the write succeeded" % loc_str(b.term(leak)["loc"]))
     rep.floor("C02.R2", "outbound queue poll_recv sites", kq, 1)
     qs = list(queue_sends(facts, crate))
-    rep.floor("C02.R2", "queue-send sites", len(qs), 14 + 2 * ("std" in crate.features) + ("tokio-time" in crate.features))
+    # a site whose message is one of several frames (`let f = if ok { finish } else { reset }; send(f)`) counts once per frame kind
+    nqs = sum(max(1, len(ctors_in(msg))) for _b, _bi, _t, _tr, msg in qs)
+    rep.floor("C02.R2", "queue-send sites", nqs, 14 + 2 * ("std" in crate.features) + ("tokio-time" in crate.features))
     # the receiver half is created once
     chans = [(b, bi) for b in crate.bodies for bi, t in b.calls() if callee(t) and callee(t)["name"] == "unbounded_channel" and "ws::Message" in callee(t)["path"]]
     if len(chans) == 1:
